@@ -111,6 +111,30 @@ def mapping_key_constraints_not_in_schema(job, failure) -> bool:
     return _explained(job, failure, "map_keys_unchecked")
 
 
+def passthrough_drops_discriminator(job, failure) -> bool:
+    """C08: PassThroughOptions(dataclasses=True) hands the member of a discriminated union
+    over untouched, and serialization_default() completes it without the discriminator key;
+    identified by: the two results are equal once the discriminator keys are removed"""
+    from vf.harness.common import program_of
+    from vf.specs import walk
+
+    if failure.get("kind") != "passthrough-changes-result" or not job.get("opts", {}).get("flags", {}).get("dataclasses"):
+        return False
+    aliases = {s.opt("alias") for s in walk(program_of(job).spec) if s.k == "disc"}
+    if not aliases:
+        return False
+
+    def strip(x):
+        if isinstance(x, dict):
+            return {k: strip(v) for k, v in x.items() if k not in aliases}
+        if isinstance(x, list):
+            return [strip(v) for v in x]
+        return x
+
+    ex = failure.get("extra", {})
+    return "plain" in ex and strip(ex["plain"]) == strip(ex["other"]) and ex["plain"] != ex["other"]
+
+
 def dependent_required_exclude_defaults(job, failure) -> bool:
     """C07: the output validates once dependentRequired is removed from the schema, and
     the job runs with exclude_defaults"""
